@@ -685,6 +685,25 @@ def odd_cases():
             ('EAItemSwap', 'nested item', B.ea('SWAP', {'storyID': 'A'}, [B.ids('itemID', ['I2', 'N1'])])),
             ('ItemDelete', 'addressed story is a nested story', B.item_delete('NS', ['N2']))]:
         case(cls, 'nested look-alikes with IDs: ' + lbl, msg, nest)
+    # the item a message names lives in ANOTHER story only (before or after the addressed one): it is not in the addressed
+    # story, so the message fails or warns exactly as for an unknown item - the other story's item is nobody's business
+    elsewhere = B.ro_doc([B.story('A', [B.item('I1'), B.p('a'), B.item('X9')]), B.story('B', [B.item('I1'), B.p('b'), B.item('I2')]),
+                          B.story('C', [B.item('Y9'), B.item('I2')])], pattern='between')
+    for other in ('X9', 'Y9'):
+        for cls, lbl, msg in [
+                ('ItemReplace', 'replace', B.item_replace('B', other, [new_item('N')])),
+                ('EAItemReplace', 'ea replace', B.ea('REPLACE', {'storyID': 'B', 'itemID': other}, [[new_item('N')]])),
+                ('ItemDelete', 'delete', B.item_delete('B', ['I1', other])),
+                ('EAItemDelete', 'ea delete', B.ea('DELETE', {'storyID': 'B'}, [B.ids('itemID', [other, 'I2'])])),
+                ('ItemInsert', 'insert before', B.item_insert('B', other, [new_item('N')])),
+                ('EAItemInsert', 'ea insert before', B.ea('INSERT', {'storyID': 'B', 'itemID': other}, [[new_item('N')]])),
+                ('ItemMoveMultiple', 'move source', B.item_move_multiple('B', [other, 'I1'])),
+                ('ItemMoveMultiple', 'move target', B.item_move_multiple('B', ['I2', other])),
+                ('EAItemMove', 'ea move source', B.ea('MOVE', {'storyID': 'B', 'itemID': 'I1'}, [B.ids('itemID', ['I2', other])])),
+                ('EAItemMove', 'ea move target', B.ea('MOVE', {'storyID': 'B', 'itemID': other}, [B.ids('itemID', ['I2'])])),
+                ('EAItemSwap', 'ea swap', B.ea('SWAP', {'storyID': 'B'}, [B.ids('itemID', ['I1', other])])),
+                ('StorySend', 'send keeps the others', B.story_send('B', [B.p('sent'), B.item(other)]))]:
+            case(cls, f'item {other} lives in another story only: ' + lbl, msg, elsewhere)
     # blank references against elements that have NO ID tag at all (a blank reference names nothing, them included)
     for cls, lbl, msg in [
             ('ItemDelete', 'blank ref', B.item_delete('B', [BLANK])), ('ItemDelete', 'blank and known', B.item_delete('B', [BLANK, 'I1', BLANK])),
